@@ -1083,6 +1083,12 @@ class FnTranslator:
                     # whose mask is "the element's position lies in the slice", with Python's meaning of negative bounds
                     out.append(self.element_slice_store(s, tgt, sl, val))
                     continue
+                cell = self.cell_store(s, tgt, sl)           # [loop ties C03] T.iloc[K, T.columns.get_loc('col')] = v
+                if cell is not None:
+                    if cell[1]:        # aliasing: refused only if this statement lies in a translated region (unknown call)
+                        val = ast.Call(func=ast.Name(id='REFUSED_' + cell[1], ctx=ast.Load()), args=[], keywords=[])
+                    out.append(ast.Assign(targets=[cell[0]], value=val))
+                    continue
                 if isinstance(sl, ast.Tuple) and len(sl.elts) == 2 and isinstance(sl.elts[1], ast.Constant) \
                         and isinstance(sl.elts[1].value, str):
                     base = tgt.value.value if isinstance(tgt.value, ast.Attribute) and tgt.value.attr == 'loc' else tgt.value
@@ -1106,6 +1112,56 @@ class FnTranslator:
                 x.lineno, x.col_offset = 0, 0
             ast.fix_missing_locations(x)
         return out
+
+    def cell_store(self, s, tgt, sl):
+        """[loop ties C03] `T.iloc[K, T.columns.get_loc('col')] = v` with K an integer literal (0, -1, ..): a store to the ONE cell
+        of table T at row position K and column 'col' -- the variable named `T.iloc[K]['col']` (reading that expression in
+        Python yields exactly this cell), to be declared as a parameter / named in `returns`.  Returns (rewritten target,
+        poison) or None when the statement has another shape.  Fail-closed against aliasing: in the whole function every
+        subscript store into T.iloc / T.loc / T must be such a cell store, and two cell stores into the same column must name
+        the same row (rows 0 and -1 of a one-row table are the same cell); augmented stores are not read.  In those cases the
+        stored value is replaced by a call of an unknown function named after the reason, so that the translator refuses
+        exactly the specs whose translated region holds the statement."""
+        def int_lit(e):
+            if isinstance(e, ast.Constant) and type(e.value) is int:
+                return e.value
+            if isinstance(e, ast.UnaryOp) and isinstance(e.op, ast.USub) and isinstance(e.operand, ast.Constant) \
+                    and type(e.operand.value) is int:
+                return -e.operand.value
+            return None
+        def shape(t):
+            """(table text, row, column) of a target T.iloc[K, T.columns.get_loc('col')], else None"""
+            if not (isinstance(t, ast.Subscript) and isinstance(t.value, ast.Attribute) and t.value.attr == 'iloc'
+                    and isinstance(t.slice, ast.Tuple) and len(t.slice.elts) == 2):
+                return None
+            row, c = int_lit(t.slice.elts[0]), t.slice.elts[1]
+            if row is None or not (isinstance(c, ast.Call) and isinstance(c.func, ast.Attribute) and c.func.attr == 'get_loc'
+                                   and isinstance(c.func.value, ast.Attribute) and c.func.value.attr == 'columns'
+                                   and len(c.args) == 1 and not c.keywords and isinstance(c.args[0], ast.Constant)
+                                   and isinstance(c.args[0].value, str)):
+                return None
+            tbl = ast.unparse(t.value.value)
+            if ast.unparse(c.func.value.value) != tbl:
+                return None
+            return tbl, row, c.args[0].value
+        me = shape(tgt)
+        if me is None:
+            return None
+        tbl, row, col = me
+        poison = 'augmented_cell_store' if isinstance(s, ast.AugAssign) else ''
+        for x in ast.walk(getattr(self, 'cur_fnode', None) or ast.Module(body=[], type_ignores=[])):
+            if isinstance(x, ast.Subscript) and isinstance(x.ctx, ast.Store):
+                base = x.value.value if isinstance(x.value, ast.Attribute) and x.value.attr in ('iloc', 'loc', 'iat', 'at') else x.value
+                if ast.unparse(base) != tbl:
+                    continue
+                other = shape(x)
+                if other is None:
+                    poison = poison or 'cell_store_beside_another_subscript_store_into_the_table'
+                elif other[2] == col and other[1] != row:
+                    poison = poison or 'cell_stores_into_two_rows_of_one_column__the_same_cell_in_a_short_table'
+        new = ast.Subscript(value=ast.Subscript(value=self.as_load(tgt.value), slice=ast.Constant(value=row), ctx=ast.Load()),
+                            slice=ast.Constant(value=col), ctx=ast.Store())
+        return new, poison
 
     @staticmethod
     def as_load(n):
@@ -1375,6 +1431,9 @@ class FnTranslator:
                 for nm, term in reversed(lets):
                     body = '(let %s := %s in %s)' % (nm, term, body)
                 return body
+            if not names:
+                # [loop ties C03] fail-closed instead of an IndexError: an `if` of assignments none of which is read later
+                raise Refuse('%s: `if %s:` assigns nothing that is read afterwards' % (self.rel, ast.unparse(s.test)))
             tterm, eterm = wrap(tvals[0], tt), wrap(evals[0], et)
             if nw is not None:
                 whole = '(match %s with Some %s => if %s then %s else %s | None => %s end)' % (env[name][0], inner, c, tterm, eterm, eterm)
